@@ -1,7 +1,25 @@
 //! Hooks for an out-of-crate verification harness. Compiled only with the cargo feature `verif`
 //! (off by default). An event sink: instrumented points call `emit`, which appends to a global,
 //! totally ordered log when a harness has enabled it, and does nothing otherwise.
-use std::sync::Mutex;
+//!
+//! Scope instrumentation (`scope/{mod,state,task}.rs`, `ctx/mod.rs`): the emission points call `event`,
+//! which records `L|<name>|<thread>|<task>|<decl>|<a>|<b>`:
+//! * `thread` - a small per-thread number (events of one thread are sequential),
+//! * `task`   - the value the harness last stored with `set_current_task` on this thread (the harness
+//!              stores the id of a task right before the task's body returns / unwinds, so the
+//!              `set_err` / release events that follow on the same thread carry it),
+//! * `decl`   - the value the harness last stored with `declare_scope` on this thread (stored right
+//!              before a `scope::run!` is polled, so that the `make` event names the harness' scope id),
+//! * `a`, `b` - event specific (addresses of the scope `State` / of the context's `canceled` signal).
+//! The harness' own events go through `hevent` (`H|<thread>|<payload>`) into the same log, so that
+//! there is one total order.
+use std::{
+    cell::Cell,
+    sync::{
+        atomic::{AtomicU64, Ordering},
+        Mutex,
+    },
+};
 
 static LOG: Mutex<Option<Vec<String>>> = Mutex::new(None);
 
@@ -19,5 +37,71 @@ pub fn take() -> Vec<String> {
 pub fn emit(event: impl FnOnce() -> String) {
     if let Some(log) = LOG.lock().unwrap().as_mut() {
         log.push(event());
+    }
+}
+
+static NEXT_THREAD: AtomicU64 = AtomicU64::new(1);
+
+thread_local! {
+    static THREAD_NO: u64 = NEXT_THREAD.fetch_add(1, Ordering::Relaxed);
+    static CUR_TASK: Cell<u64> = const { Cell::new(0) };
+    static CUR_DECL: Cell<u64> = const { Cell::new(0) };
+    static LAST_KIND: Cell<u8> = const { Cell::new(0) };
+}
+
+/// Small number identifying the calling thread.
+pub fn thread_no() -> u64 {
+    THREAD_NO.with(|t| *t)
+}
+
+/// Harness: the task whose body is about to return (or unwind) on this thread.
+pub fn set_current_task(id: u64) {
+    CUR_TASK.with(|c| c.set(id));
+}
+
+/// Harness: the id of the scope whose `run!` is about to be polled on this thread.
+pub fn declare_scope(id: u64) {
+    CUR_DECL.with(|c| c.set(id));
+}
+
+/// `Task::run` / `Task::run_blocking`: the kind of guard the task that starts on this thread owns.
+pub fn note_kind(main: bool) {
+    LAST_KIND.with(|c| c.set(if main { 1 } else { 2 }));
+}
+
+/// Harness (first statement of a task body): the kind noted by `Task::run*` on this thread
+/// (`Some(true)` = main task, holds a `CancelGuard`), consumed.
+pub fn take_kind() -> Option<bool> {
+    LAST_KIND.with(|c| match c.replace(0) {
+        1 => Some(true),
+        2 => Some(false),
+        _ => None,
+    })
+}
+
+/// An emission point of the instrumented library code.
+pub fn event(name: &'static str, a: usize, b: usize) {
+    emit(|| {
+        format!(
+            "L|{name}|{}|{}|{}|{a}|{b}",
+            thread_no(),
+            CUR_TASK.with(|c| c.get()),
+            CUR_DECL.with(|c| c.get())
+        )
+    });
+}
+
+/// An event of the harness itself (same log, same total order).
+pub fn hevent(payload: impl FnOnce() -> String) {
+    emit(|| format!("H|{}|{}", thread_no(), payload()));
+}
+
+/// Emits `event(name, 0, 0)` when dropped. Declared after a local, it is dropped (and so emits) right
+/// before that local is dropped.
+pub struct OnDrop(pub &'static str);
+
+impl Drop for OnDrop {
+    fn drop(&mut self) {
+        event(self.0, 0, 0);
     }
 }
